@@ -68,7 +68,16 @@ def check_case(case, shard):
     counting = case["kind"] == "counting"
     if counting:
         ss, bs = counting_arrays(spec)
+    if case.get("previous_data"):
+        shard.covered("model_reuse", "statistics on other data first, same model object")
     for stat in case.get("stats", STATS):
+        if case.get("previous_data"):
+            try:
+                b0 = [tuple(b) for b in model.config.suggested_bounds()]
+                b0[poi] = (0.0, case["hi"])
+                statfn(stat)(1.0, case["previous_data"] + list(model.config.auxdata), model, init, b0, fixed)
+            except Exception:
+                pass
         tilde = stat in ("qtilde", "ttilde") or (stat == "q0" and not case.get("q0_neg", True))
         bounds = [tuple(b) for b in model.config.suggested_bounds()]
         lo = 0.0 if tilde else case["neg_lo"]
@@ -184,7 +193,11 @@ def make_case(rng, backend, kind):
     if mu == "neg":
         # a tested value below zero (only reachable by the statistics that allow a negative POI bound)
         mu = gen._round(0.5 * neg_lo, 3) if neg_lo < 0 else 0.0
-    return {"kind": kind, "spec": spec, "data": data, "mu": mu, "neg_lo": neg_lo, "hi": 10.0, "backend": backend, "truth": truth, "q0_neg": rng.random() < 0.6}
+    case = {"kind": kind, "spec": spec, "data": data, "mu": mu, "neg_lo": neg_lo, "hi": 10.0, "backend": backend, "truth": truth, "q0_neg": rng.random() < 0.6}
+    if rng.random() < 0.3:
+        # the same model object has served a statistic on OTHER data first
+        case["previous_data"] = [float(gen.poisson_draw(rng, x * rng.choice([0.7, 1.5]))) for x in rates]
+    return case
 
 
 def plan(tier, seed):
